@@ -612,7 +612,9 @@ func (c *Chain) PlanBlock(txs []Tx) (vbErrs []error, groups [][]int) {
 	}
 	bundling := c.Project != nil && !c.opts.NoPostHandler && c.BundlePct > 0
 	join := func(i, j int) bool {
-		d := sha256.Sum256([]byte(fmt.Sprintf("bundle|%d|%d|%d|%s|%s|%s", h, i, len(txs), txs[i].Signer,
+		// (not the number of transactions: the decision must be the same when a behaviour cut off
+		// inside this block is re-executed)
+		d := sha256.Sum256([]byte(fmt.Sprintf("bundle|%d|%d|%s|%s|%s", h, i, txs[i].Signer,
 			sdk.MsgTypeURL(txs[i].Msgs[0]), sdk.MsgTypeURL(txs[j].Msgs[0]))))
 		return int(d[0])%100 < c.BundlePct
 	}
